@@ -15,7 +15,11 @@ import (
 	"strconv"
 	"strings"
 
+	"hash/fnv"
+
 	"github.com/sirupsen/logrus"
+
+	"github.com/projectcalico/calico/felix/bpf/consistenthash"
 
 	types "github.com/projectcalico/calico/felix/bpf/consistenthash/test"
 	"github.com/projectcalico/calico/felix/bpf/proxy"
@@ -356,12 +360,81 @@ func sizesCase(r *rng, all bool, chunk int) []line {
 	return out
 }
 
+// ---- preference lists and the directed generator ----
+
+// one backend's preference list through the real ConsistentHash.permutation
+func permCase(m int, name, bo, cpu, arith string, tags []string) line {
+	obs := func() (res string) {
+		defer func() {
+			if e := recover(); e != nil {
+				res = "PPanic"
+			}
+		}()
+		p, err := consistenthash.VerifPermutation(proxy.VerifNewConsistentHash(m), name)
+		if err != nil {
+			return "PErr"
+		}
+		parts := make([]string, len(p))
+		for i, x := range p {
+			if x < 0 {
+				parts[i] = fmt.Sprintf("(%d)", x)
+			} else {
+				parts[i] = strconv.Itoa(x)
+			}
+		}
+		return "PList [" + strings.Join(parts, ";") + "]%Z"
+	}()
+	coq := fmt.Sprintf("CPerm {| p_m := %d; p_bo := %s; p_cpu := %s; p_arith := %s; p_name := %s; p_obs := %s |}",
+		m, bo, cpu, arith, bytesCoq(name), obs)
+	smp := obs
+	if len(smp) > 120 {
+		smp = smp[:120] + "..."
+	}
+	return line{Coq: coq, Kind: "perm", NT: isPrime(m), Key: fmt.Sprintf("perm|%d|%q", m, name),
+		Sample: map[string]any{"m": m, "name": name, "permutation": smp}, Tags: append([]string{"perm"}, tags...)}
+}
+
+// the uint32 a backend name hashes to, decoded the way the source's byte-order identifier says
+func rawHash(name string, seed byte, little bool) uint64 {
+	h := fnv.New32()
+	h.Write([]byte{seed})
+	h.Write([]byte(name))
+	sum := h.Sum(nil)
+	if little {
+		return uint64(binary.LittleEndian.Uint32(sum))
+	}
+	return uint64(binary.BigEndian.Uint32(sum))
+}
+
+// Directed search: pod addresses whose first hash is so close to 2^32 that hash + j*skip passes 2^32 for some
+// j < m (where fixed-width 32-bit arithmetic would wrap), and addresses with a very small first hash.
+func directedNames(r *rng, m int, little bool, want, maxTries int) (near []string, tries int) {
+	base := r.intn(1 << 16)
+	for t := 0; t < maxTries && len(near) < want; t++ {
+		x := base + t
+		name := fmt.Sprintf("10.244.%d.%d:%d", (x>>8)&255, x&255, []int{443, 8080, 80, 53, 9090, 6443, 5432, 3306}[(x>>16)&7])
+		if x>>19 != 0 {
+			name = fmt.Sprintf("10.%d.%d.%d:%d", 128+(x>>19)&127, (x>>8)&255, x&255, []int{443, 8080, 80, 53, 9090, 6443, 5432, 3306}[(x>>16)&7])
+		}
+		h1 := rawHash(name, 0, little)
+		skip := rawHash(name, 0xa, little)%uint64(m-1) + 1
+		if h1+uint64(m-1)*skip >= 1<<32 {
+			near = append(near, name)
+		}
+		tries = t + 1
+	}
+	return near, tries
+}
+
 func main() {
 	n := flag.Int("n", 100, "cases")
 	seed := flag.Uint64("seed", 1, "seed")
 	bo := flag.String("bo", "BONative", "byte-order identifier found in the source (Coq constructor)")
+	arith := flag.String("arith", "{| a_bits := 64%Z; a_signed := true; a_offset_reduced := true; a_skip_reduced := true |}", "integer types found in the source (Coq record)")
 	nbig := flag.Int("big", 3, "how many cases use a table size Felix configures (up to 15013)")
 	allSizes := flag.Bool("allsizes", false, "check every configurable size instead of a sample")
+	cfgMax := flag.Int("cfgmax", 3000, "upper end of the BPFMaglevMaxEndpointsPerService range found in the source")
+	dsizes := flag.Int("dsizes", 2, "how many extra configurable sizes the directed generator visits (besides the largest and the default)")
 	flag.Parse()
 	logrus.SetOutput(io.Discard)
 	logrus.SetLevel(logrus.PanicLevel)
@@ -369,12 +442,58 @@ func main() {
 	if binary.NativeEndian.Uint16([]byte{1, 0}) == 1 {
 		cpu = "LE"
 	}
+	little := *bo == "BOLittle" || (*bo == "BONative" && cpu == "LE")
 	r := &rng{s: *seed}
 	enc := json.NewEncoder(os.Stdout)
 	for _, l := range sizesCase(r, *allSizes, 200) {
 		_ = enc.Encode(l)
 	}
 	_ = enc.Encode(lutCaseFor(&rng{s: 33}, 7, "m:small-prime", false, witnessNames, *bo, cpu))
+
+	// directed: the largest configurable size, the default size, and some other configurable sizes
+	dr := &rng{s: *seed ^ 0xd1ec7ed}
+	if *cfgMax > 13104 {
+		*cfgMax = 13104 // NextPrimeUint16 panics beyond; the sizes stream reports that
+	}
+	sizes := []int{int(chprimes.NextPrimeUint16(*cfgMax * chprimes.MaglevEndpointLUTFactor)), int(chprimes.NextPrimeUint16(100 * chprimes.MaglevEndpointLUTFactor))}
+	for i := 0; i < *dsizes; i++ {
+		nn := 1 + dr.intn(*cfgMax)
+		if i%2 == 0 {
+			nn = *cfgMax/2 + dr.intn(*cfgMax/2+1) // bias to large tables, where wrap-around is likeliest
+		}
+		sizes = append(sizes, int(chprimes.NextPrimeUint16(nn*chprimes.MaglevEndpointLUTFactor)))
+	}
+	stats := map[string]any{}
+	for _, m := range sizes {
+		if m < 3 {
+			continue
+		}
+		near, tries := directedNames(dr, m, little, 2, 600000)
+		stats[fmt.Sprintf("directed m=%d", m)] = fmt.Sprintf("%d names with hash1 + (m-1)*skip >= 2^32 after %d candidates", len(near), tries)
+		for _, nm := range near {
+			_ = enc.Encode(permCase(m, nm, *bo, cpu, *arith, []string{"directed:hash-near-2^32", "m:configured"}))
+		}
+		if len(near) > 0 {
+			names := append(append([]string(nil), near...), genName(dr, 0), genName(dr, 2))
+			l := lutCaseFor(dr, m, "m:configured", true, names, *bo, cpu)
+			for i, t := range l.Tags {
+				if t == "corpus" {
+					l.Tags[i] = "directed:hash-near-2^32"
+				}
+			}
+			_ = enc.Encode(l)
+		}
+	}
+	// ordinary preference lists
+	for i := 0; i < 12; i++ {
+		m, mtag := genM(r, false)
+		if m < 2 {
+			continue
+		}
+		_ = enc.Encode(permCase(m, genName(r, r.intn(5)), *bo, cpu, *arith, []string{mtag}))
+	}
+	_ = enc.Encode(map[string]any{"stats": stats})
+
 	for i := 0; i < *n; i++ {
 		_ = enc.Encode(lutCase(r, i%12 == 5 && i/12 < *nbig, *bo, cpu))
 	}
